@@ -305,6 +305,9 @@ func (c *Case) lines() []string {
 		out = append(out, l)
 	}
 	for _, op := range c.Script {
+		if op.Op == "probe" {
+			continue // a read-only look at the help in the middle of the definition: nothing for the model to do
+		}
 		out = append(out, op.line())
 	}
 	if c.Comp {
